@@ -147,6 +147,9 @@ def _curve_shapes(tier):
     out.append(dict(p=2, mult=[1], rational=False, norm=False))
     out.append(dict(p=1, mult=[1, 1], rational=True, norm=False))
     out.append(dict(p=2, mult=[2], rational=False, norm='tuple'))      # handed over as a tuple; a knot of full multiplicity
+    # the binary span search passed through find_span_func= (three interior knots: the search has to move both ways)
+    out.append(dict(p=2, mult=[1, 1, 1], rational=False, span='binsearch'))
+    out.append(dict(p=1, mult=[1, 1, 1], rational=False, span='binsearch'))
     return out
 
 
@@ -154,7 +157,7 @@ def _curve_shapes(tier):
                       'helpers.find_span_linear', 'helpers.knot_insertion', 'helpers.knot_insertion_kv',
                       'knotvector.normalize', 'BSpline.Curve.evaluate_single'],
           quick=lambda: _curve_shapes('quick'), thorough=lambda: _curve_shapes('thorough'))
-def split_curve(ctx, p, mult, rational, norm=True):
+def split_curve(ctx, p, mult, rational, norm=True, span=None):
     """x symbolic in the open domain (inside any span / on any knot): two pieces, each == original under the affine
     map of [0,1] onto [0,x] resp. [x,1]; input unchanged; x at a domain end raises"""
     U, inner, n, Pw, crv, C = _curve_setup(ctx, p, mult, rational, norm)
@@ -167,7 +170,12 @@ def split_curve(ctx, p, mult, rational, norm=True):
 
     ctx.check_raises('reject.domain_start', exc, ops.split_curve, crv, lo)
     ctx.check_raises('reject.domain_end', exc, ops.split_curve, crv, hi)
-    pieces = ops.split_curve(crv, x)
+    if span == 'binsearch':              # the documented find_span_func= option of the split functions
+        shapes.separated_knots(ctx, U, Fraction(1, 10 ** 5))
+        ctx.assume(ctx.sep(x, hi, Fraction(1, 10 ** 5)))
+        pieces = ops.split_curve(crv, x, find_span_func=ctx.geomdl('helpers').find_span_binsearch)
+    else:
+        pieces = ops.split_curve(crv, x)
     ctx.check_true('two_new_pieces', len(pieces) == 2 and all(q is not crv for q in pieces) and pieces[0] is not pieces[1])
     _curve_frame(ctx, crv, p, U, Pw, n, rational)
     bounds = [lo, x, hi]
@@ -217,12 +225,16 @@ def split_low_precision(ctx, precision, x, op):
 @scenario('C07', fns=['operations.decompose_curve', 'operations.split_curve', 'operations.insert_knot',
                       'helpers.find_multiplicity', 'helpers.knot_insertion', 'knotvector.normalize'],
           quick=lambda: _curve_shapes('quick'), thorough=lambda: _curve_shapes('thorough'))
-def decompose_curve(ctx, p, mult, rational, norm=True):
+def decompose_curve(ctx, p, mult, rational, norm=True, span=None):
     """one Bezier piece per non-empty knot interval, in order, each == original on its interval; input unchanged"""
     U, inner, n, Pw, crv, C = _curve_setup(ctx, p, mult, rational, norm)
     lo, hi = U[p], U[n]
     u = shapes.param_in(ctx, 'u', lo, hi)
-    pieces = ctx.geomdl('operations').decompose_curve(crv)
+    if span == 'binsearch':              # the find_span_func= option is handed on to every split
+        shapes.separated_knots(ctx, U, Fraction(1, 10 ** 5))
+        pieces = ctx.geomdl('operations').decompose_curve(crv, find_span_func=ctx.geomdl('helpers').find_span_binsearch)
+    else:
+        pieces = ctx.geomdl('operations').decompose_curve(crv)
     bounds = [lo] + inner + [hi]
     ctx.check_true('count=intervals', len(pieces) == len(inner) + 1, 'got %d pieces for %d non-empty knot intervals'
                    % (len(pieces), len(inner) + 1))
